@@ -197,6 +197,10 @@ def run(ctx):
                 tasks += [dict(t, alphabet_name=a) for t in tree.tree_tasks(cfg, ALPHABETS[a], dd, split=3)]
     # coarse evolvent densities (the stop rule is about eps, whatever the grid) and runs with local refinement switched
     # on (the count and the accuracy are those of the global search)
+    if not th:
+        cfg = dict(N=3, r=2.0, box="B0")
+        plan.append((cfg, "A013", d - 1))
+        tasks += [dict(t, alphabet_name="A013") for t in tree.tree_tasks(cfg, ALPHABETS["A013"], d - 1, split=3)]
     for N in (1, 2):
         for extra in (dict(density=2), dict(density=4), dict(refine=True), dict(constraints=2)):
             cfg = dict(N=N, r=2.0, box="B0" if N != 2 else "B1", **extra)
